@@ -543,6 +543,14 @@ func cmdBaseline(args []string) int {
 			fmt.Println("FATAL", p, rep.Fatal)
 			return 1
 		}
+		if len(rep.Broken) > 0 {
+			// never shrink the baseline because the generator failed
+			for k, v := range rep.Broken {
+				fmt.Printf("ERROR %s: %s\n", k, v)
+			}
+			fmt.Printf("%s: baseline NOT written (generator or contract errors above)\n", p)
+			return 1
+		}
 		// a claim is (function, obligation kind[:clause]); it enters the
 		// baseline when every instance generated for it discharges
 		ok := map[string]bool{}
